@@ -89,8 +89,8 @@ func init() {
 	})
 	// ------------------------------------------------------------------ C05
 	register("C05", func(r *Reporter) {
-		r.Cov["rule"] = "TLC enumerates the MemWalk family (counted load/store/read-modify-write loops x byte/half/word x strides x counts x first offsets over an 8 KB memory, followed by a re-reading loop) so that more lines than every cache holds are touched and dirty lines are evicted; plus the LineFill family (two loads of one cold line at different offsets, then a dependent store that changes the line); each case runs on MVP-3..8 x parallelism 1..4; the sum of the re-read values and the whole final memory must equal the sequential ones. Non-trivial = the walk touches more than 16 lines"
-		runFamily(r, "C05", []famRun{famRunOf("MemWalk", sizeForTier()), famRunOf("LineFill", sizeForTier()), famRunOf("Repo", sizeForTier())}, cfgsFrom(3),
+		r.Cov["rule"] = "TLC enumerates the MemWalk family (counted load/store/read-modify-write loops x byte/half/word x strides x counts x first offsets over an 8 KB memory, followed by a re-reading loop) so that more lines than every cache holds are touched and dirty lines are evicted; plus the Unroll family (straight-line walks over 17-18 lines that evict and re-access the first line without any pipeline flush), the repository programs (Repo) and the LineFill family (two loads of one cold line at different offsets, then a dependent store that changes the line); each case runs on MVP-3..8 x parallelism 1..4; the sum of the re-read values and the whole final memory must equal the sequential ones. Non-trivial = the walk touches more than 16 lines"
+		runFamily(r, "C05", []famRun{famRunOf("MemWalk", sizeForTier()), famRunOf("LineFill", sizeForTier()), famRunOf("Repo", sizeForTier()), famRunOf("Unroll", "small")}, cfgsFrom(3),
 			func(c *ProgCase) bool { return c.Exp.N > 100 || c.Fam == "LineFill" },
 			func(c *ProgCase, o Obs) (bool, string) { return true, o.Describe() })
 	})
@@ -107,7 +107,7 @@ func init() {
 	// ------------------------------------------------------------------ C07
 	register("C07", func(r *Reporter) {
 		r.Cov["rule"] = "all program families (General, Shadow, RegDep, Tail, MemDep, MemWalk) plus the Err family (division/remainder by zero and undefined labels at depth 0..3) on all 33 configurations; plus the cache-controller rig schedules of C06 (pairs, triples, evictions, injected flushes) on MVP-7.0/7.1/8; verdict = the run exceeds its tick budget 8*309*(n+160+32p) (n = sequential instruction count), panics, blocks, or (Err) does not return an error value. Non-trivial = every case"
-		fams := []famRun{famRunOf("Err", sizeForTier()), famRunOf("Shadow", "small"), famRunOf("Tail", "small"), famRunOf("MemDep", "small"), famRunOf("RegDep", "small"), famRunOf("Call", "small"), famRunOf("LineFill", "small"), famRunOf("Repo", "small")}
+		fams := []famRun{famRunOf("Err", sizeForTier()), famRunOf("Shadow", "small"), famRunOf("Tail", "small"), famRunOf("MemDep", "small"), famRunOf("RegDep", "small"), famRunOf("Call", "small"), famRunOf("LineFill", "small"), famRunOf("Repo", "small"), famRunOf("Unroll", "small")}
 		gr := generalRuns()
 		fams = append(fams, gr[0], gr[len(gr)-1])
 		if tier == "thorough" {
@@ -173,7 +173,7 @@ func init() {
 				return true, fmt.Sprintf("MVP-3 cycles %d, LRU-cache latency model %d", cyc, c.Exp.Cyc3)
 			}
 			if c.Fam == "Timing" {
-				k := oneLine(c.Prog)
+				k := oneLine(c.Prog) + " [image " + c.Img + "]"
 				mu.Lock()
 				if groups[k] == nil {
 					groups[k] = map[string]map[int]string{}
